@@ -228,11 +228,17 @@ def apply_op(pool, op, labels, flags):
     elif kind == "all":
         vec = [float(x) for x in op[2]]
         accepted = m.copy().setall(vec)
+        given = list(vec) if op[3] == "list" else np.array(vec)
         try:
-            v.values = list(vec) if op[3] == "list" else np.array(vec)
+            v.values = given
             raised = False
         except ValueError:
             raised = True
+        # the caller goes on using its own array: the vector keeps what it
+        # was given (checked against the model below)
+        if isinstance(given, np.ndarray) and given.size:
+            given[:] = -98765.4321
+            labels.add("caller-array-overwritten-after-assignment")
         if raised == accepted:
             raise Violation(
                 f"{what}: whole-vector assignment of {vec} "
